@@ -314,3 +314,26 @@ kproof! {
         std::mem::forget(mpk);
     }
 }
+
+// @obl props=C17 tier=quick class=bounded fn=core::TracingSecretKey::refresh_id shape="master key with 2 tracers, known identifier with 3 markers (older tracing level): a new identifier is issued and the old one forgotten"
+kproof! {
+    #[kani::unwind(8)]
+    fn tsk__refresh_id_level_mismatch_reissues() {
+        let mut rng = SymRng;
+        let (s, t0, t1): (u8, u8, u8) = (any_fe(), any_fe(), any_fe());
+        kani::assume(t1 != 0);
+        let mut tsk = mk_tsk(s, &[t0, t1]);
+        let mk3 = |x: u8, y: u8, z: u8| { let mut l = LList::new(); l.push_back(sk(x)); l.push_back(sk(y)); l.push_back(sk(z)); UserId(l) };
+        let (a, b, c): (u8, u8, u8) = (any_fe(), any_fe(), any_fe());
+        tsk.add_user(mk3(a, b, c));
+        let new_id = ok_or_forget(tsk.refresh_id(&mut rng, mk3(a, b, c)));
+        assert!(new_id.is_some(), "C09/C17: a known identifier of another tracing level is accepted");
+        let new_id = new_id.unwrap();
+        let v = id_view(&new_id);
+        assert!(v[0].is_some() && v[1].is_some() && v[2].is_none(), "C17: the re-issued identifier has one marker per current tracer");
+        assert!(addp(mulp(v[0].unwrap(), t0), mulp(v[1].unwrap(), t1)) == s, "C17: the re-issued identifier satisfies the tracing relation");
+        assert!(tsk.is_known(&new_id) && !tsk.is_known(&mk3(a, b, c)) && tsk.users.len() == 1, "C17: the new identifier replaces the old one in the registry");
+        std::mem::forget(tsk);
+        std::mem::forget(new_id);
+    }
+}
